@@ -50,6 +50,8 @@ var tlsSettings = []tlsSetting{
 	{"skip-cert", tlsSpec{Skip: true, Certs: []int{2, 3}}},
 	{"skip-sname", tlsSpec{Skip: true, SName: "other.test"}},
 	{"wrongroot-sname", tlsSpec{Roots: []int{2}, SName: "c12.test"}},
+	{"two-roots", tlsSpec{Roots: []int{1, 2}}},
+	{"two-roots-rev", tlsSpec{Roots: []int{2, 1}}},
 }
 
 // ops that bring a client from setting `from` (nil = untouched) to setting `to`
@@ -78,8 +80,9 @@ func tlsOps(setter string, to tlsSpec, from *tlsSpec) []op {
 	if from != nil {
 		f = *from
 	}
-	for _, r := range to.Roots[len(f.Roots):] {
-		out = append(out, op{K: "root", N: r})
+	for i, r := range to.Roots[len(f.Roots):] {
+		// a root added to a pool that already has one goes through the file setter (roots accumulate over setters)
+		out = append(out, op{K: "root", N: r, B: len(f.Roots)+i > 0})
 	}
 	for _, k := range to.Certs[len(f.Certs):] {
 		out = append(out, op{K: "cert", N: k})
@@ -527,7 +530,7 @@ func randomWalk(rng *hk.Rand, specs []srvSpec) cell {
 		case k < 15:
 			ops = append(ops, op{K: "skip", B: rng.Bool()})
 		case k < 16:
-			ops = append(ops, op{K: "root", N: rng.Range(1, 2)})
+			ops = append(ops, op{K: "root", N: rng.Range(1, 2), B: rng.Bool()})
 		case k < 17:
 			ops = append(ops, op{K: "cert", N: rng.Range(2, 3)})
 		case k < 18:
